@@ -2,7 +2,7 @@
 Check: the real scheduler on a virtual clock (event loop whose time() jumps to the next timer when idle; scheduler.perf_counter
 patched to it): begin times against the pacing bound and the model, too-slow reports against the model's rt_check, set_event
 decisions, completion without internal error; grouped and unconnected simulators included (F15, F19)."""
-import asyncio, collections, itertools, json, random, signal, time as _time, warnings
+import math, asyncio, collections, itertools, json, random, signal, time as _time, warnings
 warnings.simplefilter('ignore')
 from .. import common
 import mosaik, mosaik_api_v3, mosaik.scheduler as sched
@@ -26,14 +26,22 @@ class VLoop(asyncio.SelectorEventLoop):
 class RTSim(mosaik_api_v3.Simulator):
     def __init__(self):
         super().__init__({'api_version': '3.0', 'type': 'time-based', 'models': {'M': {'public': True, 'params': [], 'attrs': ['i', 'po', 'ti']}}})
-    def init(self, sid, time_resolution=1.0, step_size=1, duration=0.0, typ='time-based', events=None, self_steps=True):
+    def init(self, sid, time_resolution=1.0, step_size=1, duration=0.0, typ='time-based', events=None, self_steps=True, flag=True, external=None):
         self.sid = sid; self.ss = step_size; self.dur = duration; self.events = events or {}; self.self_steps = self_steps
+        self.external = external or []        # [(seconds after setup_done, event time)]: set_event calls made from OUTSIDE a step (an external event source)
         self.meta['type'] = typ
         if typ == 'event-based': self.meta['models']['M']['attrs'] = ['ti', 'po']
         elif typ == 'hybrid': self.meta['models']['M']['trigger'] = ['ti']
-        self.meta['set_events'] = True
+        if flag: self.meta['set_events'] = True      # (the flag is optional: set_event must work without it as well)
         return self.meta
     def create(self, num, model): return [{'eid': 'e', 'type': model}]
+    def setup_done(self):
+        loop = asyncio.get_event_loop()
+        for delay, ev in self.external: loop.call_later(delay, self._inject, delay, ev)
+    def _inject(self, delay, ev):
+        def done(f):
+            LOG.append(('SETEVENT', self.sid, ('ext', delay), ev, 'ok' if f.cancelled() or f.exception() is None else type(f.exception()).__name__))
+        asyncio.ensure_future(self.mosaik.set_event(ev)).add_done_callback(done)
     def step(self, t, inputs, max_advance):
         LOG.append(('BEGIN', self.sid, t, asyncio.get_event_loop().time()))
         for ev in self.events.get(str(t), []):
@@ -55,7 +63,7 @@ def trial(cfg):
     w = mosaik.World({'S': {'python': 'harness.props.c17:RTSim'}}, skip_greetings=True, asyncio_loop=loop, time_resolution=cfg['res'])
     ents = []
     for i, s in enumerate(cfg['sims']):
-        kw = dict(step_size=s.get('step_size', 1), duration=s.get('duration', 0.0), typ=s.get('typ', 'time-based'), events=s.get('events'), self_steps=s.get('self_steps', True))
+        kw = dict(step_size=s.get('step_size', 1), duration=s.get('duration', 0.0), typ=s.get('typ', 'time-based'), events=s.get('events'), self_steps=s.get('self_steps', True), flag=s.get('flag', True), external=s.get('external'))
         if s.get('group'):
             with w.group(): ents.append(w.start('S', sim_id=f'S{i}', **kw).M())
         else:
@@ -66,7 +74,7 @@ def trial(cfg):
         elif c[2] == 'trig': w.connect(ents[a], ents[b], ('po', 'ti'))                      # triggering connection
         else: w.connect(ents[a], ents[b], ('po', 'ti'), time_shifted=c[3])                 # 'trig_ts': time-shifted triggering connection
     for i, s in enumerate(cfg['sims']):
-        if s.get('typ') == 'event-based': w.set_initial_event(f'S{i}', 0)
+        if s.get('typ') == 'event-based' and s.get('initial', True): w.set_initial_event(f'S{i}', 0)
     real = sched.perf_counter; sched.perf_counter = loop.time
     msgs = []; hid = logger.add(lambda m: msgs.append(str(m)), level='WARNING')
     def alarm(sig, frm): raise TimeoutError('run() did not terminate (watchdog)')
@@ -116,6 +124,7 @@ def monitor(cfg, r):
     for l in r['log']:
         if l[0] == 'SETEVENT' and l[4] == 'ok':
             _, sid, t0, ev, _ = l
+            if isinstance(t0, tuple): t0 = math.ceil(t0[1] / rr)       # an external call made `delay` seconds after the start: the clock then shows ceil(delay / rr)
             stepped = any(b[1] == sid and b[2] == ev for b in begins)
             if t0 < ev < until and not stepped and r['outcome'] == 'returned': bad.append(f'{sid}: set_event({ev}) at step {t0} did not cause a step at {ev}')
             if ev >= until and stepped: bad.append(f'{sid}: event at {ev} >= until was executed')
@@ -140,6 +149,15 @@ def configs(tier, rng):
         out.append(dict(rt=rt, res=1.0, until=12, strict=False, sims=[{'typ': 'event-based', 'self_steps': False, 'events': {'0': [4]}}, {'step_size': 8}], connect=[(0, 1)]))
         out.append(dict(rt=rt, res=1.0, until=12, strict=False, sims=[{'typ': 'event-based', 'self_steps': False, 'events': {'0': [3, 5]}}, {'step_size': 6}, {'step_size': 11}], connect=[(0, 1), (0, 2)]))
         out.append(dict(rt=rt, res=1.0, until=10, strict=False, sims=[{'step_size': 3}, {'step_size': 7}], connect=[(0, 1)]))
+    for rt in rts:
+        # an external event source: set_event is called from outside any step, for an event-based simulator that has nothing
+        # scheduled and nothing connected (a controller), with and without the optional 'set_events' entry in its meta
+        for flag in (True, False):
+            ctl = {'typ': 'event-based', 'self_steps': False, 'flag': flag}
+            out.append(dict(rt=rt, res=1.0, until=12, strict=False, sims=[{}, dict(ctl, initial=False, external=[(2.5 * rt, 5), (5.5 * rt, 8)])], connect=[]))
+            out.append(dict(rt=rt, res=1.0, until=10, strict=False, sims=[dict(ctl, initial=False, external=[(1.5 * rt, 4), (1.75 * rt, 7)])], connect=[]))
+            out.append(dict(rt=rt, res=1.0, until=10, strict=False, sims=[dict(ctl, external=[(3.5 * rt, 6)]), {'step_size': 3}], connect=[(0, 1)]))
+            out.append(dict(rt=rt, res=1.0, until=9, strict=False, sims=[dict(ctl, events={'0': [3]}), {}], connect=[]))
     for rt in rts:
         # several external events pending at once, requested out of order
         ev = {'typ': 'event-based', 'self_steps': False}
